@@ -71,8 +71,8 @@ def container_info(repo, name, rel, pattern, failures):
     # drop the Windows-only wide string branches so that they cannot be mistaken for the generic code
     src = re.sub(r"#if defined\(_WIN32\).*?#endif", "", src, flags=re.S)
     sb = struct_body(src, pattern)
-    info = dict(hasPrefix=False, fastSize=False, fastEncode=False, pushCount=False, mapLike=False,
-                sizeTraits=[], encodeTraits=[])
+    info = dict(hasPrefix=False, fastSize=False, fastEncode=False, pushCount=False, mapLike=name in ("map", "unordered_map"),
+                pairTemp=False, sizeTraits=[], encodeTraits=[])
     if sb is None:
         failures.append("std codec %s: specialisation not found in %s" % (name, rel))
         return info
@@ -104,7 +104,15 @@ def container_info(repo, name, rel, pattern, failures):
         failures.append("std codec %s: cached element count inconsistent (push=%s assign=%s read=%s)" % (
             name, push, assign, readback))
     info["pushCount"] = push
-    info["mapLike"] = "Codec<std::pair<Key, T>>" in enc_b
+    # finding F16: `elem` (a pair<const Key,T>) handed to Codec<std::pair<Key,T>> => converting copy in each pass
+    info["pairTemp"] = bool(re.search(r"Codec<std::pair<Key,\s*T>>::compute_encoded_size\([^;]*\belem\)", size_b) or
+                            re.search(r"Codec<std::pair<Key,\s*T>>::encode\([^;]*\belem\)", enc_b))
+    if info["mapLike"] and not info["pairTemp"]:
+        # repaired form: key and mapped value encoded by their own codecs, in this order, in both passes
+        ok_size = re.search(r"Codec<Key>::compute_encoded_size\([^;]*elem\.first\).*Codec<T>::compute_encoded_size\([^;]*elem\.second\)", size_b, re.S)
+        ok_enc = re.search(r"Codec<Key>::encode\([^;]*elem\.first\).*Codec<T>::encode\([^;]*elem\.second\)", enc_b, re.S)
+        if not (ok_size and ok_enc):
+            failures.append("std codec %s: element encoding not recognised (neither Codec<pair<Key,T>>(elem) nor Codec<Key>(first); Codec<T>(second))" % name)
     return info
 
 
@@ -298,9 +306,9 @@ def extract(repo, failures):
     rows = []
     for name, _, _ in CONTAINERS:
         k = kinds[name]
-        rows.append("  (%s, { hasPrefix := %s, fastSize := %s, fastEncode := %s, pushCount := %s, mapLike := %s })" % (
+        rows.append("  (%s, { hasPrefix := %s, fastSize := %s, fastEncode := %s, pushCount := %s, mapLike := %s, pairTemp := %s })" % (
             lean_str(name), lean_bool(k["hasPrefix"]), lean_bool(k["fastSize"]), lean_bool(k["fastEncode"]),
-            lean_bool(k["pushCount"]), lean_bool(k["mapLike"])))
+            lean_bool(k["pushCount"]), lean_bool(k["mapLike"]), lean_bool(k["pairTemp"])))
     L.append(",\n".join(rows) + "]")
     L.append("/-- the type traits (and the template parameter they test) guarding each shortcut -/")
     L.append("def fastTraits : List (String × List (String × String)) := [")
